@@ -244,6 +244,11 @@ func protoCases(rng *common.RNG, tier, prop string) []protoCase {
 			protoCase{"openfile", strconv.Itoa(os.O_RDWR | os.O_CREATE | os.O_TRUNC | os.O_APPEND), f},
 			protoCase{"openfile", strconv.Itoa(os.O_RDWR), f})
 	}
+	// an unprivileged caller: a lock file / data file it may only read, or only write
+	for _, f := range []string{"ro:616263", "wo:616263"} {
+		cs = append(cs, protoCase{"mutex", "-", f}, protoCase{"edit", "-", f}, protoCase{"open", "-", f},
+			protoCase{"read", "-", f}, protoCase{"write", "7879", f}, protoCase{"transform", "7a7a", f})
+	}
 	for _, acc := range []int{0, 1, 2, 3} {
 		for _, cr := range []int{0, os.O_CREATE} {
 			for _, tr := range []int{0, os.O_TRUNC} {
@@ -300,7 +305,22 @@ func getFile(path string) string {
 }
 
 // runProtoCase: returns (impl line, model line, direct rule violations).
+// permCase: "ro:<hex>" / "wo:<hex>" = a root-owned file of mode 0444 / 0222 holding <hex>, the
+// call made by uid 65534 (the helper drops its privileges); "" otherwise.
+func permCase(file string) (mode os.FileMode, content, attrs string, ok bool) {
+	switch {
+	case strings.HasPrefix(file, "ro:"):
+		return 0o444, file[3:], "1 1 0", true
+	case strings.HasPrefix(file, "wo:"):
+		return 0o222, file[3:], "1 0 1", true
+	}
+	return 0, "", "", false
+}
+
 func runProtoCase(self, work string, m *common.Model, c protoCase, inject string) (impl, model string, rules []string, raw string, err error) {
+	if mode, content, attrs, ok := permCase(c.File); ok {
+		return runPermCase(self, work, m, c, mode, content, attrs)
+	}
 	path := filepath.Join(work, "proto-file")
 	setFile(path, c.File)
 	if (c.File == "fifo" || c.File == "chardev") && getFile(path) != c.File {
@@ -320,9 +340,6 @@ func runProtoCase(self, work string, m *common.Model, c protoCase, inject string
 	impl = result + " " + getFile(path) + " | " + tr
 	fl, ok := flagsOfCall(c)
 	rules = traceRules(evs, fl, ok, result)
-	if c.File == "fifo" || c.File == "chardev" {
-		m = nil // the OS model has regular files only: direct rules, no model comparison
-	}
 	if m != nil && inject == "" {
 		ans := m.Ask1(fmt.Sprintf("ops %s %s %s", c.Call, c.Arg, c.File))
 		o, f, t, e := canonModel(ans)
@@ -332,5 +349,48 @@ func runProtoCase(self, work string, m *common.Model, c protoCase, inject string
 		model = o + " " + f + " | " + t
 	}
 	os.Remove(path)
+	return impl, model, rules, raw, nil
+}
+
+// runPermCase: the call is made by an unprivileged uid on a file it may only read (or only
+// write); compared with the model's attribute semantics (opsattr).
+func runPermCase(self, work string, m *common.Model, c protoCase, mode os.FileMode, content, attrs string) (impl, model string, rules []string, raw string, err error) {
+	if os.Geteuid() != 0 {
+		return "", "", nil, "", fmt.Errorf("not root: cannot switch to an unprivileged uid (skipped)")
+	}
+	dir, err := os.MkdirTemp("/tmp", "verif-lf-proto")
+	if err != nil {
+		return "", "", nil, "", err
+	}
+	defer os.RemoveAll(dir)
+	os.Chmod(dir, 0o755)
+	path := filepath.Join(dir, "f")
+	os.WriteFile(path, common.UnHex(content), mode)
+	os.Chmod(path, mode)
+	result, evs, raw, err := straceCall(self, dir, c.Call, path, c.Arg, "", []string{"GOMAXPROCS=1", "LF_UID=65534"})
+	if err != nil {
+		return "", "", nil, raw, err
+	}
+	if result == "nopriv" {
+		return "", "", nil, raw, fmt.Errorf("helper could not drop privileges (skipped)")
+	}
+	tr, err := canonTrace(evs)
+	if err != nil {
+		return "", "", nil, raw, err
+	}
+	if strings.HasPrefix(result, "data:") && c.Call != "read" {
+		result = "ok"
+	}
+	impl = result + " " + getFile(path) + " | " + tr
+	fl, ok := flagsOfCall(c)
+	rules = traceRules(evs, fl, ok, result)
+	if m != nil {
+		ans := m.Ask1(fmt.Sprintf("opsattr %s %s %s %s", c.Call, c.Arg, content, attrs))
+		if o, f, t, e := canonModel(ans); e == nil {
+			model = o + " " + f + " | " + t
+		} else {
+			model = ans
+		}
+	}
 	return impl, model, rules, raw, nil
 }
